@@ -81,7 +81,8 @@ def leaves():
             for fl in ("-", "i"):
                 L.append(["tag", hx("a"), ["re", kind, hx(lit), fl]])
     L += [["meas", ["re", "match", hx("M"), "i"]], ["meas", ["re", "match", hx("M"), "-"]],
-          ["tag", hx("a"), ["test", "isnone"]], ["tag", hx("a"), ["test", "isstr"]],
+          ["tag", hx("a"), ["test", "isnone"]], ["tag", hx("a"), ["test", "isstr"]], ["tag", hx("a"), ["test", "twicelen"]],
+          ["meas", ["test", "twicelen"]],
           ["tag", hx("a"), ["test", "streq", "s:" + hx("x")]], ["tag", hx("a"), ["test", "streq", "s:" + hx("y")]],
           ["field", hx("f"), ["test", "numgt", "n:0"]], ["field", hx("f"), ["test", "numgt", "n:1"]],
           ["field", hx("f"), ["test", "isnone"]],
@@ -362,6 +363,10 @@ class FamilyC17:
         # further shapes outside the Lean vocabulary, on the real objects only: equal queries must evaluate alike
         ex = py_extras(tf)
         ex_names = sorted(ex)
+        from datetime import datetime as _dt, timezone as _tz
+
+        U = U + [["pt", str(V.us_of(_dt(2021, 11, 7, 6, 0, tzinfo=_tz.utc))), hx("m"), ["tags"], ["fields"]]]
+        pobjs = pobjs + [V.build_point(U[-1], tf)]
         ex_evals = {k: tuple(impl_eval(tf, ex[k], po) for po in pobjs) for k in ex_names}
         for a in ex_names:
             for b in ex_names:
@@ -430,6 +435,13 @@ def py_extras(tf):
         E[f"FieldQuery().f {nm} 1"] = op(tf.FieldQuery().f, 1)
         E[f"FieldQuery().f {nm} True"] = op(tf.FieldQuery().f, True)
         E[f"FieldQuery().f {nm} 1.0"] = op(tf.FieldQuery().f, 1.0)
+    # PEP 495: the two readings of a repeated wall-clock hour are one value to `==`/`hash` within a zone, and two instants
+    from zoneinfo import ZoneInfo
+
+    wall = V.dt_of(T0).astimezone(ZoneInfo("America/New_York")).replace(year=2021, month=11, day=7, hour=1, minute=30, second=0, microsecond=0)
+    for nm, op in (("lt", O.lt), ("le", O.le), ("gt", O.gt), ("ge", O.ge), ("eq", O.eq), ("ne", O.ne)):
+        E[f"TimeQuery() {nm} 01:30 New York fold=0"] = op(tf.TimeQuery(), wall.replace(fold=0))
+        E[f"TimeQuery() {nm} 01:30 New York fold=1"] = op(tf.TimeQuery(), wall.replace(fold=1))
     E["a.test(prefix, ('x','y'))"] = tf.TagQuery().a.test(_has_prefix, ("x", "y"))
     E["a.test(prefix, ['x','y'])"] = tf.TagQuery().a.test(_has_prefix, ["x", "y"])
     E["~a.test(prefix, ('x','y'))"] = ~tf.TagQuery().a.test(_has_prefix, ("x", "y"))
